@@ -32,6 +32,13 @@ type Val struct {
 	IsLV  bool
 	Iter  *iterInfo // range iterator
 	Known bool
+	LS    *LocalStruct // address of a frame-local struct variable (or of a nested struct field of one)
+}
+
+// LocalStruct: a struct-typed local variable whose fields live in per-variable heap keys.
+type LocalStruct struct {
+	Key string
+	Ty  types.Type
 }
 
 type iterInfo struct {
@@ -48,10 +55,11 @@ type State struct {
 	wm    Term
 	pc    Term
 	ghost map[string]Term
+	priv  []privRange // objects allocated by this activation that have not escaped
 }
 
 func (s *State) clone() *State {
-	n := &State{heap: make(map[string]Term, len(s.heap)), epoch: s.epoch, wm: s.wm, pc: s.pc, ghost: map[string]Term{}}
+	n := &State{heap: make(map[string]Term, len(s.heap)), epoch: s.epoch, wm: s.wm, pc: s.pc, ghost: map[string]Term{}, priv: append([]privRange(nil), s.priv...)}
 	for k, v := range s.heap {
 		n.heap[k] = v
 	}
@@ -100,7 +108,12 @@ type FnExec struct {
 	results  []returnInfo
 	unsupported []string
 	refKeys  map[string]bool // field keys whose Int sort denotes a reference
+	allowed  map[string][]Term // per-write frame: refs that may be written, per heap key (from modifies)
+	allowedWhole map[string]bool
+	transitions map[int]*epochTransition
+	linked   map[string]bool
 	marks    map[string]*State
+	markRes  map[string]SVal
 	markCnt  map[string]int
 }
 
@@ -144,7 +157,27 @@ func (fx *FnExec) heapGet(st *State, key string, sort Sort) Term {
 	if t, ok := st.heap[key]; ok {
 		return t
 	}
-	return fx.ctx.Const(fmt.Sprintf("H!%s!e%d", key, st.epoch), fx.keySort[key])
+	return fx.epochConst(key, st.epoch)
+}
+
+// epochConst: the value of a heap key at the start of an epoch; linked to the previous epoch on private objects.
+func (fx *FnExec) epochConst(key string, epoch int) Term {
+	c := fx.ctx.Const(fmt.Sprintf("H!%s!e%d", key, epoch), fx.keySort[key])
+	if tr, ok := fx.transitions[epoch]; ok && len(tr.priv) > 0 {
+		lk := fmt.Sprintf("%s!e%d", key, epoch)
+		if fx.linked == nil {
+			fx.linked = map[string]bool{}
+		}
+		if !fx.linked[lk] && fx.ctx.quant == 0 {
+			fx.linked[lk] = true
+			old, ok := tr.oldHeap[key]
+			if !ok {
+				old = fx.epochConst(key, tr.oldEpoch)
+			}
+			fx.preserveFacts(key, c, old, tr.priv)
+		}
+	}
+	return c
 }
 
 func (fx *FnExec) heapSet(st *State, key string, t Term) {
@@ -152,6 +185,24 @@ func (fx *FnExec) heapSet(st *State, key string, t Term) {
 }
 
 func (fx *FnExec) newEpoch(st *State) {
+	fx.newEpochP(st, true)
+}
+
+// newEpochP: havoc everything; with preserve, cells of private objects keep their values.
+func (fx *FnExec) newEpochP(st *State, preserve bool) {
+	old := map[string]Term{}
+	for k, v := range st.heap {
+		old[k] = v
+	}
+	oldEpoch := st.epoch
+	defer func() {
+		if preserve && len(st.priv) > 0 {
+			if fx.transitions == nil {
+				fx.transitions = map[int]*epochTransition{}
+			}
+			fx.transitions[st.epoch] = &epochTransition{oldHeap: old, oldEpoch: oldEpoch, priv: append([]privRange(nil), st.priv...)}
+		}
+	}()
 	keep := map[string]Term{}
 	for k := range fx.keySort {
 		if strings.HasPrefix(k, "Local.") {
@@ -285,7 +336,11 @@ func (fx *FnExec) entryFact(lv *LV) {
 	if strings.Contains(f.S, "|q!") {
 		return // mentions a bound variable of an enclosing quantifier
 	}
-	fx.ctx.RawOnce("entryfact!"+f.S, "(assert "+f.S+")")
+	// only cells of objects that existed at entry (or interior parts of such objects): cells above the entry
+	// watermark are unallocated and hold whatever a later allocation puts there
+	w := fx.entry.wm.S
+	guard := fmt.Sprintf("(and (<= %s %s) (> %s (- (* 1024 (+ %s 1)))))", lv.Ref.S, w, lv.Ref.S, w)
+	fx.ctx.RawOnce("entryfact!"+f.S, "(assert (=> "+guard+" "+f.S+"))")
 }
 
 func (fx *FnExec) readLV(st *State, lv *LV) Term {
@@ -312,13 +367,11 @@ func (fx *FnExec) writeLV(st *State, lv *LV, v Term) {
 func elemKey(s Sort) string { return "Elem." + string(s) }
 func cellKey(s Sort) string { return "Cell." + string(s) }
 
-// subRef is the interior pointer to a struct/array-typed field: an uninterpreted function of the owner,
-// negative (so it never collides with an allocated object or nil). Injectivity is not asserted (sound: more aliasing).
+// subRef is the interior pointer to a struct/array-typed field: -(1024*|p| + k) for the k-th such field key.
+// Injective in (p, k) by linear arithmetic, and negative, so it never collides with nil or an allocated object.
 func (fx *FnExec) subRef(p Term, key string) Term {
-	f := fx.ctx.DeclFun("sub!"+key, []Sort{SInt}, SInt)
-	t := App(SInt, f, p)
-	fx.ctx.RawOnce("subax!"+key+"!"+p.S, fmt.Sprintf("(assert (< %s 0))", t.S))
-	return t
+	idx := fx.eng.subIndex(key)
+	return Term{fmt.Sprintf("(subref %s %d)", p.S, idx), SInt}
 }
 
 // structFields lists the fields of a struct type.
@@ -499,6 +552,23 @@ func (fx *FnExec) mergeStates(sts []*State) *State {
 		return sts[0].clone()
 	}
 	out := &State{heap: map[string]Term{}, ghost: map[string]Term{}}
+	for _, r := range sts[0].priv {
+		all := true
+		for _, s := range sts[1:] {
+			found := false
+			for _, q := range s.priv {
+				if q.lo.S == r.lo.S && q.hi.S == r.hi.S {
+					found = true
+				}
+			}
+			if !found {
+				all = false
+			}
+		}
+		if all {
+			out.priv = append(out.priv, r)
+		}
+	}
 	var pcs []Term
 	for _, s := range sts {
 		pcs = append(pcs, s.pc)
@@ -616,6 +686,10 @@ func (fx *FnExec) mergeVals(guards []Term, vals []Val, ty types.Type) Val {
 
 // materialize turns a Val into a plain term (pointers to fields become opaque refs).
 func (fx *FnExec) materialize(v Val, ty types.Type) Term {
+	if v.LS != nil {
+		fx.note("address of a local struct variable materialised as an opaque pointer (imprecise): " + v.LS.Key)
+		return fx.ctx.Const("addr!"+v.LS.Key, SInt)
+	}
 	if v.LV != nil {
 		if v.LV.Idx == nil && strings.HasPrefix(v.LV.Key, "Cell.") {
 			return v.LV.Ref
@@ -754,7 +828,7 @@ func (fr *Frame) enterLoop(h *ssa.BasicBlock, ins []*State, preds []*ssa.BasicBl
 	st := pre.clone()
 	keys, any := fr.loopMods(h.Index)
 	if any {
-		fx.newEpoch(st)
+		fx.newEpochP(st, false) // the loop itself may modify private objects: the invariant has to restate them
 		for _, k := range sortedKeys(keys) {
 			if strings.HasPrefix(k, "Local.") {
 				if _, ok := fx.keySort[k]; !ok {
@@ -774,9 +848,26 @@ func (fr *Frame) enterLoop(h *ssa.BasicBlock, ins []*State, preds []*ssa.BasicBl
 		fx.ctx.Assert(Ge(w, st.wm))
 		st.wm = w
 	}
+	gmods := fr.loopGhostMods(h.Index)
 	for k := range st.ghost {
+		if strings.HasPrefix(k, "err:") {
+			continue // error flags are carried unchanged around the loop (checked at the back edge)
+		}
+		if !gmods[k] {
+			continue // no event in the loop body can set or clear this flag
+		}
 		st.ghost[k] = fx.ctx.Fresh("g."+k, SBool)
 	}
+	if loopGhosts[fr] == nil {
+		loopGhosts[fr] = map[int]map[string]Term{}
+	}
+	hg := map[string]Term{}
+	for k, v := range st.ghost {
+		if strings.HasPrefix(k, "err:") {
+			hg[k] = v
+		}
+	}
+	loopGhosts[fr][h.Index] = hg
 	entryPhi := map[*ssa.Phi]Val{}
 	for _, in := range h.Instrs {
 		phi, ok := in.(*ssa.Phi)
@@ -831,6 +922,7 @@ func (fr *Frame) enterLoop(h *ssa.BasicBlock, ins []*State, preds []*ssa.BasicBl
 }
 
 var loopDecs = map[*Frame]map[int]Term{}
+var loopGhosts = map[*Frame]map[int]map[string]Term{}
 var loopHdrs = map[*Frame]map[int]*State{}
 
 func (fr *Frame) loopDec(h int, m Term) {
@@ -851,6 +943,21 @@ func clauseLabel(c Clause, i int) string {
 func (fr *Frame) backEdge(u, h *ssa.BasicBlock, st *State) {
 	fx := fr.fx
 	ord := fr.loops.ordinal[h.Index]
+	// an error recorded inside the loop body must not be carried into the next iteration unhandled
+	if fr.top && fx.contract != nil && len(fx.contract.ErrProp) > 0 {
+		hg := loopGhosts[fr][h.Index]
+		for _, k := range sortedKeys(st.ghost) {
+			if !strings.HasPrefix(k, "err:") {
+				continue
+			}
+			before, ok := hg[k]
+			if !ok {
+				before = False
+			}
+			work := st.clone()
+			fx.oblige(work, "errprop", fmt.Sprintf("%s.not-swallowed-in-loop%d", strings.TrimPrefix(k, "err:"), ord), Eq(st.ghost[k], before), token.NoPos)
+		}
+	}
 	var spec *LoopSpec
 	if fr.top && fx.contract != nil {
 		spec = fx.contract.Loops[ord]
@@ -982,4 +1089,104 @@ func (fr *Frame) doReturn(x *ssa.Return, st *State) {
 		vals = append(vals, fr.val(r))
 	}
 	fr.rets = append(fr.rets, returnInfo{st: st, vals: vals})
+}
+
+
+// loopGhostMods: ghost flags that an event inside the loop body may set or clear.
+func (fr *Frame) loopGhostMods(h int) map[string]bool {
+	out := map[string]bool{}
+	fx := fr.fx
+	if !fr.top || fx.contract == nil || (len(fx.contract.GhostSets) == 0 && len(fx.contract.GhostClrs) == 0) {
+		return out
+	}
+	var events []string
+	for bi := range fr.loops.body[h] {
+		for _, in := range fr.fn.Blocks[bi].Instrs {
+			switch x := in.(type) {
+			case ssa.CallInstruction:
+				c := x.Common()
+				name := "dynamic"
+				if c.IsInvoke() {
+					name = "iface:" + ifaceMethodName(c.Value.Type(), c.Method)
+				} else if sc := c.StaticCallee(); sc != nil {
+					name = fx.eng.shortName(sc)
+				}
+				events = append(events, "call:"+name)
+			case *ssa.MapUpdate:
+				events = append(events, "mapupdate:"+typeKey(x.Map.Type()))
+			case *ssa.Lookup:
+				events = append(events, "lookup:"+typeKey(x.X.Type()))
+			}
+		}
+	}
+	for _, ev := range events {
+		for _, g := range fx.contract.GhostSets {
+			if globMatch(g.Glob, ev) {
+				out[g.Label] = true
+			}
+		}
+		for _, g := range fx.contract.GhostClrs {
+			if globMatch(g.Glob, ev) {
+				out[g.Label] = true
+			}
+		}
+	}
+	return out
+}
+
+
+// local struct helpers: copy between a frame-local struct variable and a heap struct object
+func (fx *FnExec) localLV(key string, ft types.Type) *LV {
+	if _, ok := fx.eng.localOwner[key]; !ok {
+		fx.eng.localOwner[key] = fx.eng.localOwner[rootLocalKey(fx.eng, key)]
+	}
+	return &LV{Key: key, Ref: Int(1), Sort: sortOf(ft), IsRef: isRefTy(ft)}
+}
+
+func (fx *FnExec) zeroLocalStruct(st *State, ls *LocalStruct, depth int) {
+	if depth > 4 {
+		return
+	}
+	for _, f := range structFields(ls.Ty) {
+		k := ls.Key + "." + f.Name()
+		if isStruct(f.Type()) {
+			fx.zeroLocalStruct(st, &LocalStruct{Key: k, Ty: f.Type()}, depth+1)
+		} else if !isArray(f.Type()) {
+			fx.writeLV(st, fx.localLV(k, f.Type()), zeroOf(f.Type()))
+		}
+	}
+}
+
+// heap object (src ref) -> local
+func (fx *FnExec) copyToLocal(st *State, ls *LocalStruct, src Term, depth int) {
+	if depth > 4 {
+		return
+	}
+	for _, f := range structFields(ls.Ty) {
+		k := ls.Key + "." + f.Name()
+		hk := fieldKey(ls.Ty, f.Name())
+		if isStruct(f.Type()) {
+			fx.copyToLocal(st, &LocalStruct{Key: k, Ty: f.Type()}, fx.subRef(src, hk), depth+1)
+		} else if !isArray(f.Type()) {
+			s := sortOf(f.Type())
+			fx.writeLV(st, fx.localLV(k, f.Type()), fx.readLV(st, &LV{Key: hk, Ref: src, Sort: s, IsRef: isRefTy(f.Type())}))
+		}
+	}
+}
+
+// local -> heap object (dst ref)
+func (fx *FnExec) copyFromLocal(st *State, dst Term, ls *LocalStruct, depth int) {
+	if depth > 4 {
+		return
+	}
+	for _, f := range structFields(ls.Ty) {
+		k := ls.Key + "." + f.Name()
+		hk := fieldKey(ls.Ty, f.Name())
+		if isStruct(f.Type()) {
+			fx.copyFromLocal(st, fx.subRef(dst, hk), &LocalStruct{Key: k, Ty: f.Type()}, depth+1)
+		} else if !isArray(f.Type()) {
+			s := sortOf(f.Type())
+			fx.writeLV(st, &LV{Key: hk, Ref: dst, Sort: s}, fx.readLV(st, fx.localLV(k, f.Type())))
+		}
+	}
 }
